@@ -349,6 +349,10 @@ func (s *Sim) Chaos() {
 					fault = pick(s.rngFault, "reject", "lost", "crash-before", "crash-after")
 					s.Probe("c07.targeted-" + fault)
 				}
+				if tc := s.W.Cfg.TargetCall; tc != "" && fault == "" && strings.Contains(act.K, tc) && s.rngFault.Float64() < 0.3 {
+					fault = "reject"
+					s.Probe("targeted-reject:" + tc)
+				}
 			}
 		}
 		s.record(act, fault)
